@@ -2,6 +2,7 @@ package main
 
 import (
 	"context"
+	"encoding/json"
 	"fmt"
 	"net/http"
 	"os"
@@ -107,9 +108,26 @@ func runLoss(bin, victim, phase string, kill bool, logDir string, emit emitter) 
 	var wg sync.WaitGroup
 	var wrong []string
 	var mu sync.Mutex
-	if phase == "inflight" {
+	if phase == "inflight" || phase == "streaming" {
 		for _, u := range ups {
 			u.Behave = func(w http.ResponseWriter, r *http.Request, st *psim.Stamp) bool {
+				if strings.HasPrefix(r.URL.Path, "/slow") && phase == "streaming" {
+					// the upstream keeps sending towards the node while it is lost (its end of the
+					// connection then sees a reset rather than an orderly close)
+					w.Header().Set("X-Stamp-Endpoint", st.Endpoint)
+					w.WriteHeader(200)
+					chunk := make([]byte, 32*1024)
+					end := time.Now().Add(400 * time.Millisecond)
+					for time.Now().Before(end) {
+						if _, err := w.Write(chunk); err != nil {
+							break
+						}
+						if f, ok := w.(http.Flusher); ok {
+							f.Flush()
+						}
+					}
+					return true
+				}
 				if strings.HasPrefix(r.URL.Path, "/slow") {
 					time.Sleep(300 * time.Millisecond)
 				}
@@ -258,6 +276,8 @@ func runLoss(bin, victim, phase string, kill bool, logDir string, emit emitter) 
 		}
 	}
 	s.Tl = tl.finish()
+	cmd, _ := json.Marshal([]interface{}{"Loss", victim, phase, kill})
+	s.Cmd = string(cmd)
 	emit(&Step{Op: "Reset"})
 	emit(s)
 	_ = os.Remove("")
